@@ -108,10 +108,15 @@ func runC06(cfg *config) *Report {
 	var dumps []string
 	var built []string
 	for i := 0; i < n; i++ {
-		f, err := genFile(r, genOpts{maxCL: 3, maxBundles: 3, maxItems: 4, mutateP: 20})
+		// every fifth file also carries bundles in the file's own Bundles member (JSON "bundle"): no cash letter holds
+		// them and the Writer never emits them, so no control record may count them
+		f, err := genFile(r, genOpts{maxCL: 3, maxBundles: 3, maxItems: 4, mutateP: 20, fileBundles: i%5 == 2})
 		if err != nil {
 			rep.count("gen-rejected")
 			continue
+		}
+		if len(f.Bundles) > 0 {
+			rep.count("with-file-level-bundles")
 		}
 		rep.Evaluations++
 		d := dumpFile(f)
